@@ -172,7 +172,7 @@ pub fn driver(tier: Tier, path: &str) -> i32 {
     let alpha = t32();
     let docs: Vec<Value> = vec![json!(null), json!([1, [2]]), json!({"a": [1, 2], "b": {"a": 1}}), json!({"a": {"b": [{"a": 1}, {"a": null}]}, "b": "r"})];
     let rcs: Vec<Rcvar> = docs.iter().map(crate::implx::value_to_var).collect();
-    let l = tier.pick(4, 5);
+    let l = tier.pick(5, 6);
     let mut list: Vec<String> = Vec::new();
     sentences(&g, &alpha, &[], l, &mut |seq| list.push(alpha.render(seq)));
     for s in &list {
